@@ -245,6 +245,28 @@ def run(ctx, rep) -> None:
                     cur = p
                 rep.check(ok and not reraises, "C20.R4", f"{f.qualname}: evaluate_expression call", "ExpressionError is caught and turned into a branch decision" if ok and not reraises else "a malformed condition propagates out of the handler", f.file, n.lineno, disc=f"caller:{f.qualname}")
     rep.floor("evaluate_expression call sites", n_sites, 2)
+    # the text handed to the evaluator is a str: either the evaluator rejects anything else with its own error before it
+    # calls a str method on it, or every call site has established isinstance(<arg>, str)
+    from ..dom import conditions_at
+    callee_checks = False
+    first_use = min((n.lineno for n in ast.walk(top.node) if isinstance(n, ast.Attribute) and isinstance(n.value, ast.Name) and n.value.id == "expression"), default=None)
+    for n in ast.walk(top.node):
+        if isinstance(n, ast.Raise) and n.exc is not None and "ExpressionError" in norm(n.exc) and (first_use is None or n.lineno < first_use):
+            if ("isinstance(expression, str)", False) in conditions_at(top.node, n):
+                callee_checks = True
+    for f in prog.all_functions():
+        if f.module.name == EXPR:
+            continue
+        for n in ast.walk(f.node):
+            if isinstance(n, ast.Call) and norm(n.func).split(".")[-1] == "evaluate_expression" and n.args:
+                inner = [g for g in ast.walk(f.node) if isinstance(g, (ast.FunctionDef, ast.AsyncFunctionDef)) and g is not f.node and any(x is n for x in ast.walk(g))]
+                if inner:
+                    continue        # reported for the innermost function
+                arg = norm(n.args[0])
+                ok = callee_checks or (f"isinstance({arg}, str)", True) in conditions_at(f.node, n)
+                rep.check(ok, "C20.R4", f"{f.qualname}: the condition handed to evaluate_expression is a str", "the evaluator rejects non-strings with ExpressionError" if callee_checks else (f"call reached only under isinstance({arg}, str)" if ok else
+                          f"`{arg}` comes from workflow data (any JSON value) and is neither type-checked here nor by evaluate_expression before `expression.strip()`: a non-string condition raises AttributeError, which the caller's `except ExpressionError` does not catch"),
+                          f.file, n.lineno, disc=f"arg-str:{f.qualname}")
 
     # ---- R5 -------------------------------------------------------------------------------------
     TOPO = "stabilize.dag.topological"
